@@ -189,24 +189,26 @@ public:
     }
 };
 
+// the length of the fixed report buffer is the library's own constant, not a number this file assumes
+static const size_t BUFLEN = (size_t)SimpleStringBuffer::SIMPLE_STRING_BUFFER_LEN;
 static int vsnSeam(char* dest, size_t size, const char* fmt, va_list ap) {
     char* bases[2] = { CTX.bufBase, CTX.ssbBase };
     for (int i = 0; i < 2; i++) {
         char* base = bases[i];
-        if (!base || dest < base || dest > base + 4096) continue;
-        char scratch[8192];
+        if (!base || dest < base || dest > base + BUFLEN) continue;
+        static char* scratch = (char*)::malloc(4 * BUFLEN + 65536); const size_t scratchLen = 4 * BUFLEN + 65536;
         va_list cp; va_copy(cp, ap);
-        int len = realVsn(scratch, sizeof scratch, fmt, cp);
+        int len = realVsn(scratch, scratchLen, fmt, cp);
         va_end(cp);
         if (len < 0) return len;
         size_t wouldWrite = size == 0 ? 0 : ((size_t)len + 1 < size ? (size_t)len + 1 : size);
-        if (dest + wouldWrite > base + 4096) {
-            if (!CTX.bufOverflow) { CTX.bufOverflow = true; CTX.bufOverflowDetail = sfmt("vsnprintf(base+%zu, size=%zu) with %d bytes of text would write %zu bytes past the 4096-byte buffer", (size_t)(dest - base), size, len, (size_t)(dest + wouldWrite - (base + 4096))); }
-            size_t room = (size_t)(base + 4096 - dest);
+        if (dest + wouldWrite > base + BUFLEN) {
+            if (!CTX.bufOverflow) { CTX.bufOverflow = true; CTX.bufOverflowDetail = sfmt("vsnprintf(base+%zu, size=%zu) with %d bytes of text would write %zu bytes past the %zu-byte buffer", (size_t)(dest - base), size, len, (size_t)(dest + wouldWrite - (base + BUFLEN)), BUFLEN); }
+            size_t room = (size_t)(base + BUFLEN - dest);
             if (room) { size_t n = (size_t)len < room - 1 ? (size_t)len : room - 1; memcpy(dest, scratch, n); dest[n] = 0; }
             return len;
         }
-        if (wouldWrite) { size_t n = wouldWrite - 1; if (n > sizeof scratch - 1) n = sizeof scratch - 1; memcpy(dest, scratch, n); dest[n] = 0; if ((size_t)(dest + wouldWrite - base) > CTX.maxEnd) CTX.maxEnd = (size_t)(dest + wouldWrite - base); }
+        if (wouldWrite) { size_t n = wouldWrite - 1; if (n > scratchLen - 1) n = scratchLen - 1; memcpy(dest, scratch, n); dest[n] = 0; if ((size_t)(dest + wouldWrite - base) > CTX.maxEnd) CTX.maxEnd = (size_t)(dest + wouldWrite - base); }
         return len;
     }
     return realVsn(dest, size, fmt, ap);
@@ -444,7 +446,7 @@ struct Engine : public vf::Engine {
         Vec<Str> want; size_t total = 0;
         for (int i = 0; i < N_SLOTS; i++) if (W.slots[i].live && W.slots[i].tracked && inPeriod(W.slots[i].period, q)) { total++; want.push_back(sfmt("%u|%zu|%s|%zu|%s", W.slots[i].number, W.slots[i].size, W.slots[i].file.c_str(), W.slots[i].line, W.slots[i].allocName.c_str())); }
         Str t = text;
-        if (strlen(text) > 4095) fail(W, "C14", "terminated", sfmt("report text is %zu bytes long", strlen(text)));
+        if (strlen(text) > BUFLEN - 1) fail(W, "C14", "terminated", sfmt("report text is %zu bytes long", strlen(text)));
         if (!cleanBuffer) return;
         bool none = t.find("No memory leaks were detected.") != Str::npos;
         if (none != (total == 0)) { fail(W, "C04", "report_no_leaks", sg("what", total ? "says no leaks" : "lists leaks"), sfmt("op %zu: report for period %d says '%s' but the model holds %zu blocks", opIdx, q, none ? "No memory leaks" : "leaks", total)); return; }
@@ -756,8 +758,8 @@ struct Engine : public vf::Engine {
             case H_REPORT: {
                 int q = (int)(o.a % 4);
                 const char* text = det.report((MemLeakPeriod)q);
-                size_t len = strnlen(text, 5000);
-                if (len > 4095) fail(W, "C14", "terminated", sg("what", "unterminated"), sfmt("op %zu: report text runs past 4095 bytes", oi));
+                size_t len = strnlen(text, BUFLEN + 900);
+                if (len > BUFLEN - 1) fail(W, "C14", "terminated", sg("what", "unterminated"), sfmt("op %zu: report text runs past %zu bytes", oi, BUFLEN - 1));
                 parseReport(W, oi, text, q, W.diaCleanReport);
                 if (W.diaCleanReport) probe("report_on_clean_buffer"); else probe("report_on_used_buffer");
                 W.diaCleanReport = false;
@@ -851,7 +853,7 @@ struct Engine : public vf::Engine {
             case H_SSB: {
                 char text[800]; size_t n = (size_t)o.b < sizeof text - 1 ? (size_t)o.b : sizeof text - 1; memset(text, 'q', n); text[n] = 0;
                 if (o.a == 0) ssb.add("%s", text); else if (o.a == 1) ssb.addMemoryDump(text, n); else if (o.a == 2) ssb.setWriteLimit((size_t)o.b); else if (o.a == 3) ssb.resetWriteLimit(); else ssb.clear();
-                if (strnlen(ssb.toString(), 4200) > 4095) fail(W, "C14", "terminated", sg("what", "free-standing buffer unterminated"), sfmt("op %zu", oi));
+                if (strnlen(ssb.toString(), BUFLEN + 100) > BUFLEN - 1) fail(W, "C14", "terminated", sg("what", "free-standing buffer unterminated"), sfmt("op %zu", oi));
                 break;
             }
             default: break;
